@@ -301,6 +301,10 @@ def strategy(tier):
                   games=('FT', 'FO8', 'F7S', 'FR', 'F2L3D', 'FB', 'NT', 'PO'),
                   **common),
         short_all_in_scenario(),
+        # pot-limit with a rake: the pot a player may bet includes the chips
+        # already raked off it (they are on the table until the hand ends)
+        gen.cases(profiles=(1, 2, 5), games=('PO',), custom=True,
+                  **dict(common, rake=True)),
     )
 
 
